@@ -31,6 +31,7 @@ META["level_text"] += ' Also decided (R8-R13): no constructor field the renderer
 META["technique"] += "; symbolic evaluation of the path printers over 21 root/segment shapes read back with a model of the path grammar; declared-type lint for truthiness tests of optional scalars in printers"
 META["technique"] += '; sibling comparator UnlessTag/UnlessNode vs IfTag/IfNode for parse, constructor and printer'
 META["technique"] += '; sibling comparator decrement / increment'
+META["technique"] += "; the opening of a tag carries self.token's markers; hash() only inside __hash__ (nothing process-dependent is pickled)"
 META["level_text"] += " Also decided (R15, R16): Path.__str__/PathToken.__str__ print every root/segment shape as text that reads back as the same segments; no printer drops a legal empty/zero value of an optional str/int attribute."
 
 TAGWORD = re.compile(r"\{%\x00?\s*([a-z_#]+)")
@@ -754,6 +755,60 @@ def run(prog: Program, res: Result) -> None:  # noqa: PLR0912, PLR0915
     from checks.shared import check_sibling_tags
 
     check_sibling_tags(prog, res, "C12.R20", "liquid2/builtin/tags/decrement_tag.py", "liquid2/builtin/tags/increment_tag.py", (("DecrementNode", "IncrementNode"), ("DecrementTag", "IncrementTag")), (("Decrement", "Increment"), ("decrement", "increment")), only=("parse", "__init__", "__str__"))
+    # ------------------------------------------------------------------ R21 a tag's own opening carries its own token's markers
+    res.rule("C12.R21", "the opening of a tag is printed with the whitespace control of that tag's own token: in every Node.__str__ the marker after the first `{%` / `{{` comes from `self.token.wc` (directly or through a local bound to it) - a child block's token is the first token *inside* the block, so `self.block.wc` prints the default markers and `{% tablerow … -%}` comes back as `{% tablerow … %}`")
+    n21 = 0
+    for nc21 in prog.subclasses(node_base):
+        m21 = nc21.methods.get("__str__")
+        if m21 is None:
+            continue
+        owners21 = []
+        for js in [n for n in ast.walk(m21.node) if isinstance(n, ast.JoinedStr)]:
+            vals = js.values
+            for i, v in enumerate(vals):
+                if isinstance(v, ast.Constant) and isinstance(v.value, str) and v.value.endswith(("{%", "{{")) and i + 1 < len(vals) and isinstance(vals[i + 1], ast.FormattedValue):
+                    e = vals[i + 1].value
+                    e = e.value if isinstance(e, ast.Subscript) else e
+                    # look through locals: `wc = self.block.wc`, `token = self.token`
+                    for _ in range(3):
+                        root = e
+                        while isinstance(root, (ast.Attribute, ast.Subscript)):
+                            root = root.value
+                        if isinstance(root, ast.Name) and root.id != "self":
+                            defs21 = [a.value for a in ast.walk(m21.node) if isinstance(a, ast.Assign) and any(isinstance(t, ast.Name) and t.id == root.id for t in a.targets)]
+                            if len(defs21) == 1:
+                                e = ast.parse(norm(e, 400).replace(root.id, "(" + norm(defs21[0], 400) + ")", 1), mode="eval").body
+                                continue
+                        break
+                    owners21.append(norm(e, 200).replace("(", "").replace(")", ""))
+        if not owners21:
+            continue
+        n21 += 1
+        site = f"{nc21.file}:{m21.node.lineno} {nc21.name}.__str__"
+        what = f"{nc21.name}.__str__: one opening carries self.token's markers"
+        # ConditionalBlockNode's block is built from the elsif tag's own token (IfTag / UnlessTag.parse: BlockNode(token=alternative_token, …)
+        # next to ConditionalBlockNode(alternative_token, …)), so its block's token *is* the tag token: an equivalent spelling
+        same_token_block = nc21.name == "ConditionalBlockNode" and any(o.startswith(("self.block.wc", "self.block.token.wc")) for o in owners21)
+        if any(o.startswith("self.token.wc") for o in owners21) or same_token_block:
+            res.ok("C12.R21", site, what, "self.token.wc" if not same_token_block else "self.block's token is the tag's token")
+        else:
+            res.fail("C12.R21", file=nc21.file, line=m21.node.lineno, qualname=f"{nc21.name}.__str__", construct=f"{nc21.name}.__str__: no opening printed with self.token.wc", message=f"{nc21.name}.__str__ prints its tags with the markers of {sorted(set(owners21))[:2]} and never with self.token.wc: the tag's own `-` / `~` / `+` is lost (a block's token is the first token inside it, so `self.block.wc` prints default markers) and the reparsed template trims differently", what=what)
+    res.floor("C12.R21", "Node printers with an opening tag", n21, 15)
+    # ------------------------------------------------------------------ R22 nothing process-dependent is stored on what gets pickled
+    res.rule("C12.R22", "a pickled template behaves in the process that loads it as in the one that made it: the builtin hash() is called only inside __hash__ methods, so no hash value - which for strings differs with every interpreter's hash seed - is stored on a node or expression and carried across by pickle (a cached `_hash` on Path makes equal cycle groups unequal after unpickling) (= C09.R6)")
+    n22 = 0
+    for mod22 in prog.modules.values():
+        for c22 in ast.walk(mod22.tree):
+            if isinstance(c22, ast.Call) and isinstance(c22.func, ast.Name) and c22.func.id == "hash":
+                n22 += 1
+                fi22 = prog.enclosing_function(mod22, c22)
+                q22 = fi22.qualname if fi22 else "<module>"
+                what22 = f"`{norm(c22, 50)}` only implements __hash__"
+                if fi22 is not None and fi22.name == "__hash__":
+                    res.ok("C12.R22", f"{mod22.relpath}:{c22.lineno} {q22}", what22, "computed on demand in the current process")
+                else:
+                    res.fail("C12.R22", file=mod22.relpath, line=c22.lineno, qualname=q22, construct=f"{norm(c22, 50)} computed outside __hash__ in {q22}", message=f"{q22} computes `{norm(c22, 50)}` outside a __hash__ method: stored on the object it is pickled with it, and a string's hash differs between interpreters (PYTHONHASHSEED), so an unpickled template carries hashes that no longer match equal values made in the new process", what=what22)
+    res.floor("C12.R22", "hash() calls", n22, 10)
 
 
 def _grouping_rule(prog: Program, res: Result) -> None:  # noqa: PLR0912, PLR0915
